@@ -155,7 +155,8 @@ class Check:
         unattributed failing input has been found (that is what the escalation is for)."""
         if self.tier == 'thorough':
             return True
-        return bool(self.broken_ties) and not self.failing
+        # quick tier: escalate while a tie is broken and nothing was found, for at most 12 minutes of the run
+        return bool(self.broken_ties) and not self.failing and (time.time() - self.t0) < 720
 
     def report(self, f: Failing, known_id: str | None = None) -> None:
         """Report a failing input; `known_id` if the caller attributed it to a listed finding."""
